@@ -46,7 +46,7 @@ ASSUMPTIONS = [
     "age == expiration exactly is unspecified; expiration=0 and unhashable arguments are not generated",
     "identity-hashed receivers in the base workload; ==-equal distinct receivers run as a separate family",
 ]
-MINIMUMS = {"monitor:required-hit": 20000, "monitor:right-key": 20000, "monitor:capacity": 20000, "evictions_forced": 2000, "expiry_boundary_crossed": 2000, "required_hit_after_reorder": 300, "histories_with_hash_colliding_keys": 100}
+MINIMUMS = {"monitor:required-hit": 20000, "monitor:right-key": 20000, "monitor:capacity": 20000, "evictions_forced": 2000, "expiry_boundary_crossed": 2000, "required_hit_after_reorder": 300, "histories_with_hash_colliding_keys": 100, "recursive_histories": 100}
 JOBS = {"quick": 4, "thorough": 16}
 LEVEL_TEXT = (
     "All histories up to the tier's length (quick 5-6, thorough 7) over 3 typed-distinct keys and 2 dyadic clock advances are run for every "
@@ -310,6 +310,94 @@ def run_history(R: Recorder, case: dict[str, Any], verbose: bool = False) -> Non
         R.sample({**case, "invocations": inv["n"], "verdicts": len(verdicts)}, kind=flavour)
 
 
+def run_recursive(R: Recorder, case: dict[str, Any], verbose: bool = False) -> None:
+    """re-entrant use: the cached function calls its own cached wrapper with other keys while it computes (memoised recursion)"""
+    from haiway import cache
+
+    flavour, limit, depth, bare = case["flavour"], case["limit"], case["depth"], case.get("bare", False)
+    is_method, is_async = flavour.endswith("method"), flavour.startswith("async")
+    refs: list[weakref.ref[Result]] = []
+    inv: list[Any] = []
+    deco = cache if bare else cache(limit=limit)
+    limit = 1 if bare else limit
+
+    def made(n: int, who: str | None) -> Result:
+        r = Result((who, n))
+        refs.append(weakref.ref(r))
+        return r
+
+    if flavour == "sync":
+        @deco
+        def chain(n: int) -> Result:
+            inv.append(n)
+            if n > 0:
+                chain(n - 1)
+            return made(n, None)
+        call = chain
+    elif flavour == "async":
+        @deco
+        async def chain(n: int) -> Result:  # type: ignore[misc]
+            inv.append(n)
+            if n > 0:
+                await chain(n - 1)
+            return made(n, None)
+        call = chain
+    elif flavour == "sync-method":
+        class H(Receiver):
+            @deco
+            def chain(self, n: int) -> Result:
+                inv.append(n)
+                if n > 0:
+                    self.chain(n - 1)
+                return made(n, self.name)
+        call = H("A").chain
+    else:
+        class H(Receiver):  # type: ignore[no-redef]
+            @deco
+            async def chain(self, n: int) -> Result:
+                inv.append(n)
+                if n > 0:
+                    await self.chain(n - 1)
+                return made(n, self.name)
+        call = H("A").chain
+    out: dict[str, Any] = {}
+
+    async def main(loop: Any) -> None:
+        r = call(depth)
+        if is_async:
+            r = await r
+        out["tag"] = r.tag
+        del r
+        for _ in range(3):
+            await asyncio.sleep(0)
+        gc.collect()
+        out["alive"] = sum(1 for x in refs if x() is not None)
+        n0 = len(inv)
+        r = call(depth)
+        if is_async:
+            r = await r
+        out["again_invoked"] = len(inv) - n0
+        out["again_tag"] = r.tag
+        del r
+        for _ in range(3):
+            await asyncio.sleep(0)  # let finished tasks and their callbacks leave the loop's ready queue before counting
+        gc.collect()
+        out["alive_after"] = sum(1 for x in refs if x() is not None)
+
+    status, value, loop = run_virtual(main, max_iterations=50000)
+    R.case(case, nontrivial=depth >= limit)
+    R.count("recursive_histories")
+    where = {"flavour": flavour, "kind": "too-many-alive", "reentrant": True}
+    if verbose:
+        print(status, value, out, inv)
+    if status != "ok":
+        R.monitor("right-key", False, where={"flavour": flavour, "kind": f"history-{status}", "reentrant": True}, detail=f"recursive history ended {status}: {value!r}", case=case)
+        return
+    who = "A" if is_method else None
+    R.monitor("capacity", out["alive"] <= limit and out["alive_after"] <= limit, where=where, detail=f"memoised recursion of depth {depth} with limit {limit}: {out['alive']} results alive afterwards ({out['alive_after']} after one more call)", case=case)
+    R.monitor("right-key", out["tag"] == (who, depth) and out["again_tag"] == (who, depth), where={"flavour": flavour, "kind": "wrong-arguments", "reentrant": True}, detail=f"chain({depth}) returned results tagged {out['tag']} / {out['again_tag']}", case=case)
+
+
 FLAVOURS = ("sync", "async", "sync-method", "async-method")
 KEYS3 = {
     False: [(None, (1, 0)), (None, (1.0, 0)), (None, (True, 0))],
@@ -370,6 +458,12 @@ def argname_wrappers() -> dict[str, tuple[Any, bool, bool]]:
 
 def run(R: Recorder, tier: str, seed: int, shard: int, nshards: int) -> None:
     if shard == 0:
+        for flavour in FLAVOURS:
+            for limit in (1, 2, 3, 4):
+                for depth in range(0, 8):
+                    run_recursive(R, {"recursive": True, "flavour": flavour, "limit": limit, "depth": depth})
+            for depth in (1, 3):
+                run_recursive(R, {"recursive": True, "flavour": flavour, "limit": 1, "depth": depth, "bare": True})
         argnames.check(R, "arguments", argname_wrappers())
         stacking.check_cache(R, "required-hit")
     R.flags["exhaustive_core"] = f"all histories up to length {EXH_LEN[tier]} over 3 keys + 2 advances x 4 flavours x limits 1-3 x expirations (none, 1, 2.5)"
@@ -390,6 +484,9 @@ def run(R: Recorder, tier: str, seed: int, shard: int, nshards: int) -> None:
 def replay(R: Recorder, case: dict[str, Any]) -> None:
     if "argnames" in case:
         argnames.check(R, "arguments", argname_wrappers(), only=case["argnames"])
+        return
+    if case.get("recursive"):
+        run_recursive(R, case, verbose=True)
         return
     if "stacking" in case:
         stacking.check_cache(R, "required-hit", only=case["stacking"])
